@@ -117,6 +117,22 @@ def run_extract(artefact):
     return True, out.strip()
 
 
+def trusted_text_check(prop):
+    """source text the translators take on trust (derives, operator impls, iterator order, enum discriminants, struct layouts, Cargo
+    profiles, main.rs): compare with the fingerprints recorded in tools/trusted_text.json -> list of changed items this property rests on"""
+    rc, out = sh([sys.executable, os.path.join(VERIF, "tools", "trusted_text.py")])
+    try:
+        cur = json.loads(out)
+        ref = json.load(open(os.path.join(VERIF, "tools", "trusted_text.json")))
+    except Exception as e:
+        return ["trusted-text fingerprints could not be computed: " + (out.strip().splitlines()[-1] if out.strip() else str(e))[:200]]
+    bad = []
+    for k, v in ref.items():
+        if prop in v["props"] and cur.get(k, {}).get("sha") != v["sha"]:
+            bad.append(k)
+    return bad
+
+
 def norm_ws(s):
     return re.sub(r"\s+", " ", s).strip()
 
